@@ -651,6 +651,8 @@ func c12Par64(c *Ctx) {
 
 // ---------------------------------------------------------------- BSI goroutine paths under C12's detectors
 
+var bsiDeadlockSeen int64
+
 // bsiGoroutines returns the (normalised) stacks of goroutines that are inside a bit-sliced index.
 func bsiGoroutines() string {
 	var out []string
@@ -701,6 +703,11 @@ func allParked(dump string) bool {
 // that are still alive after the workload returned. The race detector watches the whole run.
 func c12BSI(inner func(c *Ctx)) func(c *Ctx) {
 	return func(c *Ctx) {
+		if atomic.LoadInt64(&bsiDeadlockSeen) != 0 {
+			// one witness per process is enough: the goroutines of a blocked call stay around for good
+			c.Count("bsi_cases_skipped_after_a_confirmed_deadlock")
+			return
+		}
 		procs := []int{1, 2, 4, 16}[int(c.CaseSeed>>3)%4]
 		old := runtime.GOMAXPROCS(procs)
 		defer runtime.GOMAXPROCS(old)
@@ -729,6 +736,7 @@ func c12BSI(inner func(c *Ctx)) func(c *Ctx) {
 					d2 := bsiGoroutines()
 					if d1 == d2 && d1 != "" && allParked(d1) {
 						atomic.StoreInt64(&watchdogLimitNs, int64(4*time.Second))
+						atomic.StoreInt64(&bsiDeadlockSeen, 1)
 						c.Fail("BSI/deadlock", "a bit-sliced index call never returned (GOMAXPROCS=%d): all goroutines inside the index are parked with identical stacks in two dumps 5 s apart:\n%s", procs, d1)
 						return
 					}
